@@ -719,6 +719,77 @@ def engine_fields_after_init(em):
     return out
 
 
+def rule_clear_restores_context(em, rep, rid):
+    rep.rule(rid, 'clear() leaves the evaluation context as the constructor made it: the constructor and then clear() are '
+                  'evaluated by the checker (registrations taken from the builtin table) and the two contexts are compared key '
+                  'by key - in particular __builtins__ is still an empty mapping, so that the next load cannot reach Python\'s '
+                  'builtins, and nothing that was loaded or registered is left')
+    from .symex import SymEx, PathState, Const, DictV, Sym
+    init = em.repo.lookup_method(em.YP, '__init__')
+    clear = em.repo.lookup_method(em.YP, 'clear')
+    reg = em.repo.lookup_method(em.YP, 'register_function')
+    if init is None or clear is None:
+        raise AnalysisError('anchor vanished: YP.__init__/clear')
+    by_node = {id(b['node']): b for b in em.builtins()}
+
+    class SX(SymEx):
+        def apply(self, e, f, args, kw, st, func):
+            if isinstance(f, tuple) and f[0] == 'bound' and f[1] is reg:
+                b = by_node.get(id(e))
+                d = st.fields.get('eval_context')
+                if not isinstance(d, DictV):
+                    raise AnalysisError('a builtin is registered before the context exists')
+                key = Const(b['key']) if b is not None else (args[0] if args else Sym('name'))
+                for pr in d.pairs:
+                    if repr(pr[0]) == repr(key):
+                        pr[1] = args[1] if len(args) > 1 else Sym('func')
+                        break
+                else:
+                    d.pairs.append([key, args[1] if len(args) > 1 else Sym('func')])
+                return [(st, Const(None))]
+            return SymEx.apply(self, e, f, args, kw, st, func)
+    sx = SX(em.repo, inline=lambda g: g.module.name == 'engine' and g.cls in (em.YP, None) and g is not reg, max_depth=5)
+    sx.max_steps = 200000
+    try:
+        o1 = sx.run(init, [Sym(p) for p in init.params[1:]], PathState())
+        if len(o1) != 1:
+            raise AnalysisError('the constructor does not evaluate to one state (%d)' % len(o1))
+        st1 = o1[0][0]
+        before = st1.fields.get('eval_context')
+        snap = [(repr(k), v) for k, v in before.pairs] if isinstance(before, DictV) else None
+        # something loaded in between
+        if isinstance(before, DictV):
+            before.pairs.append([Const('loaded_1'), Sym('loaded')])
+        o2 = sx.run(clear, [], st1)
+        if len(o2) != 1:
+            raise AnalysisError('clear() does not evaluate to one state (%d)' % len(o2))
+        after = o2[0][0].fields.get('eval_context')
+    except (AnalysisError, RecursionError) as e:
+        rep.note(rid, 'the constructor / clear() cannot be evaluated (%s): the context after clear() is not decided here' % str(e)[:120], clear.loc())
+        return
+    if snap is None or not isinstance(after, DictV):
+        rep.note(rid, 'the evaluation context is not a mapping the checker can follow', clear.loc())
+        return
+    a = [(repr(k), v) for k, v in after.pairs]
+    key = 'engine.YP.clear:context'
+    missing = [k for k, _ in snap if k not in [x for x, _ in a]]
+    extra = [k for k, _ in a if k not in [x for x, _ in snap]]
+    bi = [v for k, v in a if k == repr(Const('__builtins__'))]
+    if missing:
+        rep.violation(rid, key, 'after clear() the context lacks %s, which a new engine has: %s' % (
+            ', '.join(missing[:4]), 'the next load runs with Python\'s real builtins (exec inserts them when the key is absent), so loaded '
+            'code can reach __import__, open, eval' if repr(Const('__builtins__')) in missing else 'code that relies on it fails after a clear()'), clear.loc())
+    elif extra:
+        rep.violation(rid, key, 'after clear() the context still holds %s: what was loaded or registered before is not forgotten' % ', '.join(extra[:4]), clear.loc())
+    elif not bi or not (isinstance(bi[0], DictV) and not bi[0].pairs):
+        rep.violation(rid, key, 'after clear() __builtins__ is %r, not an empty mapping' % (bi[0] if bi else None), clear.loc())
+    elif [k for k, _ in a] != [k for k, _ in snap]:
+        rep.violation(rid, key, 'after clear() the context has its entries in another order than a new engine (the reserved-name list and '
+                      'the order in which loads see existing definitions differ)', clear.loc())
+    else:
+        rep.ok(rid, key, '%d entries, the same as after construction; __builtins__ empty' % len(a), clear.loc())
+
+
 def rule_load_takes_all(em, rep, rid):
     import re as _re
     from . import lexclass as lx
